@@ -22,6 +22,10 @@ func (e *Enc) lookup(f *frame, x *ssa.Lookup) {
 			return
 		}
 	}
+	if v, ok := e.mapLookup(f, x); ok {
+		f.vals[x] = v
+		return
+	}
 	e.abstract("map-lookup")
 	f.vals[x] = e.freshVal(x.Type(), x.Name())
 }
@@ -32,10 +36,16 @@ func (e *Enc) mapUpdate(f *frame, x *ssa.MapUpdate) {
 			return
 		}
 	}
+	if e.mapStore(f, x) {
+		return
+	}
 	e.abstract("map-update")
 }
 
 func (e *Enc) mapDelete(f *frame, c *ssa.CallCommon, args []Val) {
+	if e.mapRemove(c, args) {
+		return
+	}
 	e.abstract("map-delete")
 }
 
